@@ -1,15 +1,12 @@
 #!/bin/bash
 # try_mutant.sh <patch.diff> <ID> [secs] [tier]
-# Applies a deliberate property-breaking patch to /repo's working tree, runs the
-# check, and restores the tree. Prints DETECTED / MISSED. Never leaves /repo modified.
+# Runs a check against /repo's tree with a deliberate property-breaking patch
+# applied THROUGH THE BUILD OVERLAY (PBSIM_MUTANT_DIFF): /repo itself is not
+# modified, so this can run next to other checks. Prints DETECTED / MISSED.
 set -u
 patch=$(readlink -f "$1"); id=$2; secs=${3:-20}; tier=${4:-quick}
-cd /repo || exit 2
-if [ -n "$(git status --porcelain)" ]; then echo "try_mutant: /repo is not clean" >&2; exit 2; fi
-if ! git apply --recount --whitespace=nowarn "$patch"; then echo "try_mutant: patch does not apply" >&2; exit 2; fi
-trap 'git -C /repo checkout -- . ; git -C /repo clean -fdq' EXIT
-mkdir -p /verif/.work/mutant-replays
-out=$(cd /verif && PBSIM_SECS=$secs PBSIM_REPLAY_DIR=/verif/.work/mutant-replays PBSIM_EVIDENCE_DIR=/verif/.work/mutant-evidence ./check "$id" "$tier" 2>&1 | grep -v conda)
-code=$?
+root=$(cd "$(dirname "$0")/../.." && pwd)
+mkdir -p $root/.work/mutant-replays
+out=$(cd $root && PBSIM_MUTANT_DIFF=$patch PBSIM_SECS=$secs PBSIM_REPLAY_DIR=$root/.work/mutant-replays PBSIM_EVIDENCE_DIR=$root/.work/mutant-evidence ./check "$id" "$tier" 2>&1 | grep -v conda)
 echo "$out" | tail -6
 if echo "$out" | grep -q "^VIOLATION property=$id"; then echo "RESULT $(basename "$patch") $id: DETECTED"; else echo "RESULT $(basename "$patch") $id: MISSED"; fi
